@@ -3,6 +3,7 @@ SPECIFICATION AsImplSpec
 CONSTANTS
   Kinds = {"d", "ad"}
   MaxLen = 2
+  Hooks = {"none"}
   FaultModes = {"ww"}
 ACTION_CONSTRAINT StartWhenPolled
 PROPERTY StopNoNewStep
